@@ -21,3 +21,15 @@ Theorem c13_unwinding_conserves_events :
     Permutation (q ++ allsent) (tr ++ lft) /\ (oc = Finished -> lft = nil).
 Proof. exact flush_conservation. Qed.
 Print Assumptions c13_unwinding_conserves_events.
+
+Require Import NArith.
+Require Import EV.World EV.Ledger.
+
+(* EventDropper::drop on what is left of the queue: the destruction ledger grows by exactly one
+   entry per queued event whose type has a destructor, in queue order - no event is skipped
+   (not even one whose target is dead), none is destroyed twice *)
+Theorem c13_dropper_destroys_each_queued_event_once :
+  forall (q : list qitem) (w : world),
+    w_drops (unwind_queue q w) = w_drops w ++ flat_map (fun it => ev_entry (qi_targeted it) (item_tag w it) (qi_ev it)) q.
+Proof. exact unwind_queue_spec. Qed.
+Print Assumptions c13_dropper_destroys_each_queued_event_once.
